@@ -129,11 +129,11 @@ def match_known(entry: dict[str, Any], sig: str) -> bool:
 
 
 def load_known(prop: str | None = None) -> list[dict[str, Any]]:
-    path = ROOT / "known_findings.json"
-    if not path.exists():
-        return []
-    data = json.loads(path.read_text())
-    entries = data.get("findings", [])
+    entries: list[dict[str, Any]] = []
+    paths = [ROOT / "known_findings.json", *sorted((ROOT / "known_findings.d").glob("*.json"))]
+    for path in paths:
+        if path.exists():
+            entries.extend(json.loads(path.read_text()).get("findings", []))
     if prop is not None:
         entries = [e for e in entries if e.get("property") == prop]
     return entries
